@@ -227,9 +227,9 @@ func drivePreParams(rc *RunCtx) {
 			if fired {
 				return nil
 			}
-			seen := map[int64]bool{}
+			seen := map[int64]int{}
 			for _, p := range parked {
-				seen[p.parent] = true
+				seen[p.parent]++
 			}
 			if len(families) == 0 {
 				if len(seen) != 2 {
@@ -238,9 +238,16 @@ func drivePreParams(rc *RunCtx) {
 				for g := range seen {
 					families = append(families, g)
 				}
-				sort.Slice(families, func(i, j int) bool { return families[i] < families[j] })
+				// the Paillier search runs twice as many workers as the NTilde search: the family with more
+				// parked readers at the first quiescent point is Paillier's (goroutine ids would not do: their
+				// order depends on GOMAXPROCS)
+				sort.Slice(families, func(i, j int) bool { return seen[families[i]] > seen[families[j]] })
+				if seen[families[0]] == seen[families[1]] {
+					families = nil
+					return nil
+				}
 			}
-			starved := families[0] // the Paillier search is started first
+			starved := families[0] // the Paillier search (the larger family)
 			if starve == "ntilde" {
 				starved = families[1]
 			}
